@@ -175,13 +175,20 @@ Eigen::Vector3d genVec(vf::Ctx & c, const char * nx, const char * ny, const char
 }
 
 // attitude: roll, yaw in [-pi, pi], |pitch| <= pi/2 - 1e-3 (packed at the margin with weight 1/4)
-Eigen::Vector3d genAttitude(vf::Ctx & c, const char * nr, const char * npc, const char * npu, const char * np, const char * ny, bool & nearGimbal)
+Eigen::Vector3d genAttitude(vf::Ctx & c, const char * nr, const char * npc, const char * npu, const char * np, const char * ny, bool & nearGimbal,
+  bool anyWriting = false)
 {
   double roll = c.s.r(nr, -PI, PI);
   double pitch;
-  if (c.s.pick(npc, {3, 1}) == 0) {pitch = c.s.r(np, -PITCH_MAX, PITCH_MAX);} else {
+  size_t pc = anyWriting ? c.s.pick(npc, {3, 1, 1}) : c.s.pick(npc, {3, 1});
+  if (pc == 0) {pitch = c.s.r(np, -PITCH_MAX, PITCH_MAX);} else if (pc == 1) {
     bool up = c.s.flag(npu);
     pitch = c.s.near(np, up ? PITCH_MAX : -PITCH_MAX, 3.0, 15.0, -PITCH_MAX, PITCH_MAX);
+  } else {
+    // an attitude written with the pitch outside the principal range (cos(pitch) < 0): still 1e-3 rad away from
+    // gimbal lock, still a component in [-1e4, 1e4]; a given pose may be written this way
+    pitch = c.s.r(np, -PITCH_MAX, PITCH_MAX) + (c.s.flag(npu) ? PI : -PI);
+    c.label("pitch-outside-principal-range");
   }
   double yaw = c.s.r(ny, -PI, PI);
   nearGimbal = nearGimbal || std::fabs(pitch) > PITCH_MAX - 1e-3;
@@ -263,7 +270,7 @@ void reduction(vf::Ctx & c)
   rc_::PoseAndTwist3D pt;
   bool ng = false;
   pt.pose.position = genVec(c, "px", "py", "pz");
-  pt.pose.orientation = genAttitude(c, "roll", "pitch_class", "pitch_up", "pitch", "yaw", ng);
+  pt.pose.orientation = genAttitude(c, "roll", "pitch_class", "pitch_up", "pitch", "yaw", ng, true);
   CovInfo ci1, ci2;
   pt.pose.covariance = genCov<6>(c, ci1);
   pt.twist.linearSpeeds = genVec(c, "vx", "vy", "vz");
@@ -415,11 +422,18 @@ void se3Action(vf::Ctx & c)
 {
   // attitudes before / after the first / after the second transform are drawn; the rotations are derived from them
   bool ng = false;
-  size_t mode = c.s.pick("mode", {1, 6});   // 0: first transform is the identity
+  size_t mode = c.s.pick("mode", {1, 6, 2});   // 0: first transform is the identity; 2: it is almost the identity
   Eigen::Vector3d p = genVec(c, "px", "py", "pz");
   Eigen::Vector3d A0 = genAttitude(c, "roll0", "pitch0_class", "pitch0_up", "pitch0", "yaw0", ng);
   Eigen::Vector3d A1 = A0, t1 = Eigen::Vector3d::Zero();
-  if (mode != 0) {
+  if (mode == 2) {
+    // a rotation of 1e-5 .. 1e-12 rad (its cosine rounds to 1, its sine does not), no translation or a small one
+    double mag = std::pow(10.0, -c.s.uni("tiny_rotation_exp", 5.0, 12.0));
+    A1 = A0 + mag * Eigen::Vector3d(c.s.uni("tiny_dx", -1, 1), c.s.uni("tiny_dy", -1, 1), c.s.uni("tiny_dz", -1, 1));
+    if (std::fabs(A1[1]) > PITCH_MAX) {A1[1] = A0[1];}
+    if (c.s.flag("tiny_with_translation")) {t1 = genVec(c, "t1x", "t1y", "t1z");}
+    c.label("first-transform-almost-identity");
+  } else if (mode != 0) {
     A1 = genAttitude(c, "roll1", "pitch1_class", "pitch1_up", "pitch1", "yaw1", ng);
     t1 = genVec(c, "t1x", "t1y", "t1z");
   }
